@@ -3,5 +3,5 @@ CONSTANTS
   Gen = FALSE
   Mutant = FALSE
 SPECIFICATION Spec
-INVARIANTS EffectMatchesLowering ClipRespected BoxesDocumented
+INVARIANTS EffectMatchesLowering ClipRespected BoxesDocumented UnsignedOK
 CHECK_DEADLOCK FALSE
